@@ -181,30 +181,6 @@ fn cold_src_job(head: Src, ops: Vec<Op1>) -> Job {
 }
 
 
-/// A subscriber that stops being interested after `k` notifications: from then
-/// on `is_finished()` answers true (what `take(k)` and the other early-ending
-/// operators answer upstream once they have completed downstream).
-#[derive(Clone)]
-struct Sated {
-  probe: crate::probe::Probe,
-  k: usize,
-}
-
-impl rxrust::prelude::Observer<V, E> for Sated {
-  fn next(&mut self, v: V) {
-    self.probe.next(v)
-  }
-  fn error(self, e: E) {
-    self.probe.error(e)
-  }
-  fn complete(self) {
-    self.probe.complete()
-  }
-  fn is_finished(&self) -> bool {
-    self.probe.len() >= self.k
-  }
-}
-
 /// A basic source observed directly by a subscriber that reports itself
 /// finished after `k` notifications. The documented sequence of these sources
 /// does not depend on that answer except that the source may stop early: what
@@ -244,6 +220,56 @@ fn sated_job(head: Src, k: usize, form: Form) -> Job {
       }
     } else {
       obs.unspecified += 1;
+    }
+    obs.delivered = r.probe.len() as u64;
+    obs.note_outcome(&r.probe.notes());
+    obs.log(|| format!("probe: [{}]", fmt_notes(&r.probe.notes())));
+  })
+}
+
+
+/// The same for the operators: `create(hot) . op` observed by a subscriber that
+/// reports finished after `k` notifications, driven through every history. An
+/// operator may stop early but must still hand on the terminal its documented
+/// sequence ends with (`finalize`, `on_complete`, `complete_status` above a
+/// `take` are observers of exactly this kind).
+fn sated_hot_job(ops: Vec<Op1>, k: usize, len: usize) -> Job {
+  use rxrust::prelude::*;
+  let head = Src::Raw(0);
+  let pipe = mk_chain(Pipe::S(head.clone()), &ops);
+  Job::new(format!("sated-after-{k} hot L{len} {}", pipe.show()), move |ch, obs| {
+    let mut r = Run::prepare(1, Form::Local);
+    let o = Sated { probe: r.probe.clone(), k };
+    let _u = build_local(&pipe, &r.cx).actual_subscribe(o);
+    let mut hist: Vec<Note> = vec![];
+    for _ in 0..len {
+      let ev = alpha4(ch.choose(ALPHA4));
+      ch.label(|| format!("in0 <- {ev:?}"));
+      r.emit(0, &ev);
+      hist.push(ev);
+      obs.checks += 1;
+      let got = r.probe.seq();
+      match model::chain(&pipe, &model::normalize(&hist)) {
+        None => obs.unspecified += 1,
+        Some(exp) => {
+          let prefix = got.items.len() <= exp.items.len() && exp.items[..got.items.len()] == got.items[..];
+          let enough = got.items.len() >= k.min(exp.items.len());
+          if !(prefix && enough && got.t == exp.t && r.probe.grammar_ok()) {
+            obs.fail(
+              format!("seq:{}:to-finished-observer", ops.iter().map(|o| o.name()).collect::<Vec<_>>().join("+")),
+              format!(
+                "{} on [{}] observed by a subscriber that reports finished after {k} notifications: documented [{}], delivered [{}] (expected a prefix of at least {} items, then the documented terminal)",
+                pipe.show(),
+                fmt_notes(&hist),
+                fmt_notes(&exp.notes()),
+                fmt_notes(&r.probe.notes()),
+                k.min(exp.items.len())
+              ),
+            );
+            break;
+          }
+        }
+      }
     }
     obs.delivered = r.probe.len() as u64;
     obs.note_outcome(&r.probe.notes());
@@ -368,7 +394,7 @@ pub fn plan(tier: Tier) -> Plan {
   // (operator set, depth, history length)
   let configs: Vec<(&Vec<Op1>, usize, usize)> = match tier {
     Tier::Quick => vec![(&full, 1, 5), (&reduced, 2, 4)],
-    Tier::Thorough => vec![(&full, 1, 6), (&full, 2, 5), (&reduced, 3, 4)],
+    Tier::Thorough => vec![(&full, 1, 6), (&full, 2, 5), (&reduced, 3, 5)],
   };
   let mut bounds = vec![];
   for (ops, depth, len) in configs {
@@ -392,6 +418,11 @@ pub fn plan(tier: Tier) -> Plan {
     for k in 0..3 {
       jobs.push(sated_job(s.clone(), k, Form::Local));
       jobs.push(sated_job(s.clone(), k, Form::Threads));
+    }
+  }
+  for op in &full {
+    for k in 0..3 {
+      jobs.push(sated_hot_job(vec![op.clone()], k, 4));
     }
   }
   for id in 0..10 {
